@@ -208,6 +208,7 @@ impl Prop for C13 {
         ]
     }
     fn run(&self, ctx: &Ctx) {
+        ctx.journal_bytes.set(true);
         let cases = ctx.tier.pick(1_000u32, 14_000u32);
         ctx.run_bytes("session", cases, 1536, case);
         // constant budgets 1..64 exhaustively on short fixed programs
